@@ -787,9 +787,9 @@ fn pid(l: &Lint, doc: &Document, loose: bool) -> String {
         .map(|t| src[t.span.start.min(src.len())..t.span.end.min(src.len())].iter().collect::<String>()).collect::<Vec<_>>().join("\u{1}");
     let tok_texts = |a: usize, b: usize| -> Vec<String> {
         if a >= b { return vec![]; }
-        // (a zero-width structural token strictly inside the window is one of "the tokens within two characters":
-        // Markdown puts the break that ends a block at the start of the block's last text run)
-        doc.get_tokens().iter().filter(|t| t.span.start < b && a < t.span.end)
+        // (zero-width structural tokens are no part of it: they hold no text and come and go with what is written
+        // elsewhere - the code left them out of the context too, since its repair "zero-width tokens")
+        doc.get_tokens().iter().filter(|t| t.span.start < b && a < t.span.end && t.span.end > t.span.start)
             // loose identity: only "words" (anything that is not white space or a structural break)
             .filter(|t| !loose || !(t.kind.is_whitespace() || matches!(t.kind, harper_core::TokenKind::ParagraphBreak)))
             .map(|t| src[t.span.start..t.span.end.min(src.len())].iter().collect::<String>()).collect()
@@ -826,7 +826,9 @@ pub fn c14(a: &Args) {
     for i in 0..a.num("md-sessions", nsess as u64 / 2) as usize {
         let mut sent = |rng: &mut Rng| -> String {
             let t = rng.pick(&typo_sentences[..]).clone();
-            match rng.below(4) { 0 => format!("{t} It has teh typo."), 1 => format!("An test: {t}"), 2 => format!("{t} {}", rng.pick(&special[..])), _ => t }
+            // (the last three end the block right behind the flagged word, with and without closing markup)
+            match rng.below(7) { 0 => format!("{t} It has teh typo."), 1 => format!("An test: {t}"), 2 => format!("{t} {}", rng.pick(&special[..])),
+                3 => format!("{t} I like **teh.**"), 4 => format!("{t} I like teh"), 5 => format!("{t} Read [the teh.](http://example.com)"), _ => t }
         };
         let (a1, b1, c1, d1) = (sent(&mut rng), sent(&mut rng), sent(&mut rng), sent(&mut rng));
         let t = match i % 9 {
